@@ -83,6 +83,8 @@ impl<L: Language, N: Analysis<L>> EGraph<L, N> {
         let c = self.classes.get_mut(&id).unwrap();
 
         c.slots = cap.clone();
+        #[cfg(slotted_egraphs_verif)]
+        crate::verif::event("shrink", id.0);
         let generators = c.group.generators();
         let _ = c;
 
